@@ -221,6 +221,160 @@ def audit_sliders(ctx, f, cfgname):
     return total
 
 
+def walker_audit(ctx, f):
+    """The const variants (the ray walkers that also fill the tables) for EVERY square and EVERY occupancy.
+
+    The walker is executed symbolically with the square fixed and the loops run as written (unrolled): the only
+    undetermined branch conditions are occupancy tests.  Each must be a single occupancy bit (decided in the
+    bit-function domain, so masking/renaming of the blocker set is seen through); a path is then a partial occupancy,
+    the paths of one square must partition all 2^64 occupancies, and on each path the returned set must be what the
+    geometric ray walk gives for every occupancy of that partial assignment -- which requires that the walk never
+    needs a bit the path left undecided."""
+    from ..bitfn import BitEval, CannotBit, vec_var, const_bit, combine
+    ctx.rule("const-walkers.all-occupancies")
+    SQT = "cozy_chess_types::square::Square"
+    A = vec_var("occ")
+
+    def to_u64(e):
+        k = e[0]
+        if e == ("param", "blockers"):
+            return ("leafA",)
+        if k in ("bb", "raw"):
+            return to_u64(e[1])
+        if k == "bbof" and e[1][0] == "enum":
+            return ("int", 1 << geom.sq_index(e[1][2]), "u64")
+        if k == "bbconst":
+            return ("int", e[1], "u64")
+        if k == "field" and e[2] == "0":
+            return to_u64(e[1])
+        if k == "with" and e[2] == ("f", "0"):
+            return to_u64(e[3])
+        if k in ("and", "or", "xor"):
+            return ("bin", {"and": "BitAnd", "or": "BitOr", "xor": "BitXor"}[k], to_u64(e[1]), to_u64(e[2]))
+        if k == "not":
+            return ("un", "Not", to_u64(e[1]))
+        if k == "bin":
+            return ("bin", e[1], to_u64(e[2]), to_u64(e[3]))
+        if k == "un":
+            return ("un", e[1], to_u64(e[2]))
+        if k == "int":
+            return e
+        raise CannotBit("walker expression %s" % (str(e)[:80]))
+    ev = BitEval({("leafA",): A})
+    memo = {}
+
+    def bits_of(x):
+        r = memo.get(x)
+        if r is None:
+            r = ev.vec(to_u64(x))
+            memo[x] = r
+        return r
+    ncell = 0
+    npaths = 0
+    for piece, dirs in (("rook", geom.ROOK_D), ("bishop", geom.BISHOP_D)):
+        body = f.need(MV + "get_%s_moves_const" % piece)
+        bad = []
+        # quick tier: the 16 squares whose file and rank are in {a,d,e,h} x {1,4,5,8} (every combination of ray lengths
+        # 0/3/4/7 towards each edge); thorough tier: all 64
+        squares = range(64) if ctx.tier == "thorough" else [r * 8 + fl for r in (0, 3, 4, 7) for fl in (0, 3, 4, 7)]
+        for s in squares:
+            name = geom.FILES[s & 7].upper() + str((s >> 3) + 1)
+            try:
+                ps = sym.SymExec(f, body, params={"square": ("enum", SQT, name)}, unroll=64, max_inline_blocks=80, max_depth=6,
+                                 opaque=lambda n: n.startswith("cozy_chess_types::") and "::sliders::" not in n, max_paths=20000).run()
+            except sym.PathLimit:
+                bad.append((name, "too many paths"))
+                continue
+            weight = 0.0
+            for p in ps:
+                if p.end not in ("return",):
+                    if p.end in ("panic", "diverge", "loopback", "unreachable"):
+                        # must be infeasible: decided below like any other path
+                        pass
+                alpha = {}
+                feasible = True
+                why = None
+                for c in p.conds:
+                    e, v = c[0], c[1]
+                    try:
+                        if e[0] == "has" and e[2][0] == "enum":
+                            term = bits_of(e[1])[geom.sq_index(e[2][2])]
+                        else:
+                            raise CannotBit("branch on %s" % sym.show(e)[:80])
+                    except CannotBit as ex:
+                        why = str(ex)
+                        break
+                    if term[0] == ():
+                        if term[1] != (1 if v else 0):
+                            feasible = False
+                            break
+                        continue
+                    if len(term[0]) == 1 and term[1] in (0b10, 0b01) and isinstance(v, int):
+                        k = term[0][0][1]
+                        want = 1 if ((term[1] == 0b10) == bool(v)) else 0
+                        if alpha.get(k, want) != want:
+                            feasible = False
+                            break
+                        alpha[k] = want
+                        continue
+                    why = "occupancy test that is not a single bit: %s" % sym.show(e)[:80]
+                    break
+                if why:
+                    bad.append((name, why))
+                    continue
+                if not feasible:
+                    continue
+                npaths += 1
+                if p.end != "return":
+                    bad.append((name, "path ends in %s for occupancy bits %s" % (p.end, alpha)))
+                    continue
+                weight += 2.0 ** (-len(alpha))
+                try:
+                    rv = ev.vec(to_u64(p.ret))
+                except CannotBit as ex:
+                    bad.append((name, str(ex)))
+                    continue
+                if any(b[0] != () for b in rv):
+                    bad.append((name, "result depends on occupancy bits directly"))
+                    continue
+                got = sum(1 << i for i, b in enumerate(rv) if b[1])
+                want = 0
+                need = None
+                for dx, dy in dirs:
+                    fx, ry = s & 7, s >> 3
+                    while True:
+                        fx, ry = fx + dx, ry + dy
+                        if not (0 <= fx < 8 and 0 <= ry < 8):
+                            break
+                        q = ry * 8 + fx
+                        want |= 1 << q
+                        if q not in alpha:
+                            # undecided square on the ray: fine only if it is the last one before the edge
+                            nfx, nry = fx + dx, ry + dy
+                            if 0 <= nfx < 8 and 0 <= nry < 8:
+                                need = q
+                            break
+                        if alpha[q]:
+                            break
+                    if need is not None:
+                        break
+                if need is not None:
+                    bad.append((name, "the walk passes %s without testing whether it is occupied" % geom.sq_name(need)))
+                elif got != want:
+                    bad.append((name, "occupancy %s: walker gives %#x, ray walk gives %#x" % ({geom.sq_name(k): b for k, b in sorted(alpha.items())}, got, want)))
+                elif s in alpha:
+                    bad.append((name, "the result is made to depend on the slider's own square"))
+            if abs(weight - 1.0) > 1e-9:
+                bad.append((name, "the feasible paths do not partition the occupancies (weight %.6f)" % weight))
+            ncell += 1
+        ctx.check(not bad, "%s_const:ray-walk" % piece,
+                  "get_%s_moves_const is not the geometric ray walk for every occupancy: %s" % (piece, bad[:4]), loc(body),
+                  sample={"walker": "get_%s_moves_const" % piece, "squares": len(squares), "rule": "paths partition occupancies; each returns the ray walk"})
+    ctx.floor("walker squares audited", ncell, 128 if ctx.tier == "thorough" else 32)
+    ctx.saw("const walkers: %d feasible paths over %d (piece, square) cases" % (npaths, ncell))
+    ctx.assumptions.append("Square::try_offset is coordinate arithmetic (C19)")
+
+
 def const_variants(ctx, f):
     ctx.rule("const-variants+build-script")
     slow = {}
@@ -385,6 +539,7 @@ def run(ctx):
         if cfg == "A":
             cells += audit_tables(ctx, f)
             const_variants(ctx, f)
+            walker_audit(ctx, f)
             pawn_quiets(ctx, f)
         cells += audit_sliders(ctx, f, "magic" if cfg != "C" else "pext")
     ctx.extra["cells_audited"] = cells
